@@ -465,9 +465,32 @@ def c03_case(case, payload):
     return out
 
 
+def c03_raw(case, payload):
+    """a transaction given as WIRE BYTES (produced by the Coq reference encoder, not by pycardano): decode, re-encode the body,
+    compare with the body slice cut out by the own walker; id versus BLAKE2b-256 of the slice"""
+    import hashlib
+    bs = bytes.fromhex(case['tx'])
+    start = 1 if bs[0] < 0x98 else 2
+    end = skip_item(bs, start)
+    body = bs[start:end]
+    out = {'tx': bs.hex(), 'body_start': start, 'body_end': end, 'features': features(body), 'tx_features': features(bs), 'flags': [],
+           'expected_id': hashlib.blake2b(body, digest_size=32).hexdigest()}
+    try:
+        t = Transaction.from_cbor(bs)
+        out['decode'] = 'ok'
+        out['body_reenc'] = t.transaction_body.to_cbor().hex()
+        out['id'] = t.id.payload.hex()
+        out['tx_reenc_same'] = t.to_cbor() == bs
+    except Exception as e:
+        out['decode'] = err_kind(e); out['decode_msg'] = str(e)[:160]
+    return out
+
+
 def handler(case, payload):
     if case.get('mode') == 'c03':
         return c03_case(case, payload)
+    if case.get('mode') == 'c03raw':
+        return c03_raw(case, payload)
     opaque = payload['opaque']
     cls = CLASSES[case['cls']]
     g = Gen(case['seed'], opaque)
